@@ -9,7 +9,7 @@
   `v` is time-independent here (the real check also compares with the clock; an accepted pair
   stays accepted as time passes).
 -/
-import Lumina.Proofs.StoreHist
+import Lumina.Proofs.StoreStrict
 import Lumina.Proofs.ComposeStoreVerify
 import Lumina.Gen.C21
 
@@ -45,28 +45,26 @@ theorem mem_hash_index (v : Hdr → Hdr → Bool) (ops : List Op) (hw : AllWf op
   obtain ⟨_, r, hi⟩ := mem_run_sim v ops hw _ _ rm_init absInv_init
   exact mem_hashIndex r hi h x hx
 
-/-- REDB STORE, adjacency, PARTIAL: as long as only validated headers are stored (`ValidRun`;
-    open finding `C19/redb/unvalidated-header-stored`: the redb store cannot read an unvalidated
-    header back, so the refinement to the abstract store is lost once one is accepted) -/
-theorem redb_adjacent_verify_partial (v : Hdr → Hdr → Bool) (ops : List Op) (hw : AllWf ops)
-    (hvr : ValidRun v init ops) (h : Nat) (x y : Hdr) :
+/-- REDB STORE, adjacency, FULL (no hypothesis on the headers): after any history, headers that
+    `get_by_height` returns for `h` and `h + 1` verify as adjacent.  Through the strict abstract
+    store (`Proofs/StoreStrict.lean`): the redb store conforms to it in every history, and its
+    states keep the chain invariant. -/
+theorem redb_adjacent_verify (v : Hdr → Hdr → Bool) (ops : List Op) (hw : AllWf ops) (h : Nat) (x y : Hdr) :
     let t := (runOps (RedbStore.step v) RedbStore.new ops).1
     RedbStore.getByHeight t h = .ok x → RedbStore.getByHeight t (h + 1) = .ok y →
       verifyAdjacent v x y = true := by
   intro t hx hy
-  obtain ⟨_, r⟩ := redb_run_sim v ops hw _ _ rr_init absInv_init hvr
-  have hi := (abs_run_inv v ops hw _ absInv_init (absVer_init v)).1
-  exact redb_chain r hi v (abs_chain_invariant v ops hw) h x y hx hy
+  obtain ⟨_, r, hi, hv⟩ := redb_runS_sim v ops hw _ _ rr_init absInv_init (absVer_init v)
+  exact redb_chain r hi v hv h x y hx hy
 
-/-- REDB STORE, hash index, PARTIAL (needs `ValidRun`) -/
-theorem redb_hash_index_partial (v : Hdr → Hdr → Bool) (ops : List Op) (hw : AllWf ops)
-    (hvr : ValidRun v init ops) (h : Nat) (x : Hdr) :
+/-- REDB STORE, hash index, FULL: a header `get_by_height(h)` returns has height `h`, and
+    `get_by_hash` / `has` of its hash give that same header -/
+theorem redb_hash_index (v : Hdr → Hdr → Bool) (ops : List Op) (hw : AllWf ops) (h : Nat) (x : Hdr) :
     let t := (runOps (RedbStore.step v) RedbStore.new ops).1
     RedbStore.getByHeight t h = .ok x →
       x.height = h ∧ RedbStore.getByHash t x.hash = .ok x ∧ RedbStore.containsHash t x.hash = true := by
   intro t hx
-  obtain ⟨_, r⟩ := redb_run_sim v ops hw _ _ rr_init absInv_init hvr
-  have hi := (abs_run_inv v ops hw _ absInv_init (absVer_init v)).1
+  obtain ⟨_, r, hi, _⟩ := redb_runS_sim v ops hw _ _ rr_init absInv_init (absVer_init v)
   exact redb_hashIndex r hi h x hx
 
 /-! ### non-vacuity: stored consecutive headers exist, and a fork header next to a stored
@@ -141,16 +139,16 @@ theorem mem_adjacent_linked_fixed_clock (C : Content) (sig : Hdr → Hdr → Hea
     · exact hv
   exact (verifyAt_adjacent hv' hadj).1
 
-/-- the same for the redb store -/
-theorem redb_adjacent_linked_fixed_clock_partial (C : Content) (sig : Hdr → Hdr → HeaderVerify.Oracle) (now : Int)
-    (ops : List Op) (hw : AllWf ops) (hvr : ValidRun (verifyAt C sig now) init ops) (h : Nat) (x y : Hdr) :
+/-- the same for the redb store (no hypothesis on the headers: `redb_adjacent_verify`) -/
+theorem redb_adjacent_linked_fixed_clock (C : Content) (sig : Hdr → Hdr → HeaderVerify.Oracle) (now : Int)
+    (ops : List Op) (hw : AllWf ops) (h : Nat) (x y : Hdr) :
     let t := (runOps (RedbStore.step (verifyAt C sig now)) RedbStore.new ops).1
     RedbStore.getByHeight t h = .ok x → RedbStore.getByHeight t (h + 1) = .ok y →
       (C.c y).height = (C.c x).height + 1 ∧ (C.c y).chainId = (C.c x).chainId ∧
       (C.c x).time < (C.c y).time ∧ (C.c y).validatorsHash = (C.c x).nextValidatorsHash ∧
       (C.c y).lastHeaderHash = (C.c x).hash := by
   intro t hx hy
-  have hv := redb_adjacent_verify_partial (verifyAt C sig now) ops hw hvr h x y hx hy
+  have hv := redb_adjacent_verify (verifyAt C sig now) ops hw h x y hx hy
   have hadj : x.height + 1 = y.height := by
     unfold verifyAdjacent at hv
     split at hv
@@ -187,7 +185,7 @@ theorem mem_consecutive_headers_linked (C : Content) (sig : Hdr → Hdr → Head
   exact of_decide_eq_true (mem_pair r hi hv h x y hx hy)
 
 /-- **REDB STORE, fork-free hash-linked segments, any clock behaviour** (every header handed to
-    `insert` is validated: the documented precondition of the store, cf. `redb_adjacent_verify_partial`). -/
+    `insert` is validated: the documented precondition of the store, cf. `redb_adjacent_verify`, which needs no such hypothesis for a fixed oracle). -/
 theorem redb_consecutive_headers_linked_partial (C : Content) (sig : Hdr → Hdr → HeaderVerify.Oracle)
     (ops : List VOp) (hw : AllWfV ops) (hval : AllValidatedV ops)
     (hs : ∀ p ∈ ops, ClockSound C sig p.1) (h : Nat) (x y : Hdr) :
